@@ -220,6 +220,9 @@ type drv struct {
 	ops      []string // resolved ops as Coq terms
 	stats    map[string]int
 	nspecs   int
+	effFail    int
+	allowStale bool
+	fails      []string // Go-side monitor
 }
 
 func (d *drv) pidList(l []gen.PID) []int64 {
@@ -247,8 +250,26 @@ func (d *drv) die(r int) {
 	d.events = append(d.events, fmt.Sprintf("EvTerminated %d", r))
 }
 
-// handleAction; returns 0 nil, 1 error (reason), 2 panic
+// a spawn with a registered name fails while a previous instance of that name is alive (its exit has
+// not been taken from the mailbox yet): the environment of the theorems (no_stale). Witness cases of
+// the "stale-exit" finding switch this off.
+func (d *drv) nameLive(name int) bool {
+	if d.c.Kind == "sofo" || d.allowStale {
+		return false
+	}
+	for _, n := range d.children {
+		if n == name {
+			return true
+		}
+	}
+	return false
+}
+
+// handleAction; returns (0 nil | 1 error | 2 panic, reason). d.effFail = which spawn of this loop
+// failed (0 none), whether asked for by the case or refused by the environment.
 func (d *drv) handleAction(a act.VerifAction, err error, panicked string, fail int) (int, int) {
+	d.effFail = 0
+	nspawn := 0
 	for {
 		if panicked != "" {
 			return 2, 0
@@ -278,18 +299,19 @@ func (d *drv) handleAction(a act.VerifAction, err error, panicked string, fail i
 			}
 			return 0, 0
 		case 1:
-			if fail == 1 {
-				d.events = append(d.events, fmt.Sprintf("EvSpawnFail %d", nameOf(a.SpecName)))
+			nspawn++
+			name := nameOf(a.SpecName)
+			if fail == nspawn || d.nameLive(name) {
+				if fail != nspawn {
+					d.stats["spawn-refused-name-taken"]++
+				}
+				d.effFail = nspawn
+				d.events = append(d.events, fmt.Sprintf("EvSpawnFail %d", name))
 				d.stats["spawn-fail"]++
 				return 1, 6
 			}
-			fail--
-			if fail < 0 {
-				fail = 0
-			}
 			pid := d.next
 			d.next++
-			name := nameOf(a.SpecName)
 			d.children[pid] = name
 			d.events = append(d.events, fmt.Sprintf("EvSpawn %d %d", pid, name))
 			d.stats["spawn"]++
@@ -369,12 +391,31 @@ func (d *drv) exit(pid int64, reason int, fail int) {
 		delete(d.children, pid)
 		delete(d.sig, pid)
 	}
+	// Go-side monitor (finding "stale-exit"): the exit of an old instance must not wipe the record of
+	// the running instance of the same spec
+	var other int64
+	if found && d.c.Kind != "sofo" {
+		for _, c := range d.v.State().Spec {
+			if nameOf(c.Name) == name && pidNum(c.PID) != pid && pidNum(c.PID) != 0 {
+				if _, live := d.children[pidNum(c.PID)]; live {
+					other = pidNum(c.PID)
+				}
+			}
+		}
+	}
 	before := d.v.State().Restarts
 	a, p := d.v.ChildTerminated(atomOf(name), pidOf(pid), reasonOf(reason))
+	if other != 0 {
+		for _, c := range d.v.State().Spec {
+			if nameOf(c.Name) == name && pidNum(c.PID) != other {
+				d.fails = append(d.fails, fmt.Sprintf("the exit of pid %d (an old instance of child c%d) cleared the record of its running instance %d", pid, name, other))
+			}
+		}
+	}
 	now := lastNow(before, d.v.State().Restarts)
-	d.ops = append(d.ops, fmt.Sprintf("OExit %d %d %s %d", pid, reason, util.Z(now), fail))
 	d.log(fmt.Sprintf("CTerminated %d %d %d %s", name, pid, reason, util.Z(now)), a, nil, p)
 	h, r := d.handleAction(a, nil, p, fail)
+	d.ops = append(d.ops, fmt.Sprintf("OExit %d %d %s %d", pid, reason, util.Z(now), d.effFail))
 	d.afterRun(h, r, now)
 }
 
@@ -412,13 +453,14 @@ func (d *drv) apply(o mOp) {
 	case "foreign":
 		d.nforeign++
 		d.stats["exit-foreign"]++
-		d.exit(5000+d.nforeign, o.R, o.Fail)
+		d.exit(100+d.nforeign%800, o.R, o.Fail)
 	case "start":
 		n := d.specByIndex(o.A)
 		a, err, p := d.v.ChildSpec(atomOf(n))
-		d.ops = append(d.ops, fmt.Sprintf("OStartChild %d %d", n, o.Fail))
 		d.log(fmt.Sprintf("CSpec %d", n), a, err, p)
-		d.afterCall(d.handleAction(a, err, p, o.Fail))
+		h, r := d.handleAction(a, err, p, o.Fail)
+		d.ops = append(d.ops, fmt.Sprintf("OStartChild %d %d", n, d.effFail))
+		d.afterCall(h, r)
 		d.stats["op-start"]++
 	case "add":
 		n := d.nspecs + 1
@@ -429,16 +471,18 @@ func (d *drv) apply(o mOp) {
 		if err == nil && p == "" {
 			d.nspecs++
 		}
-		d.ops = append(d.ops, fmt.Sprintf("OAddChild %d %s %d", n, util.B(o.Sig), o.Fail))
 		d.log(fmt.Sprintf("CAdd %d %s", n, util.B(o.Sig)), a, err, p)
-		d.afterCall(d.handleAction(a, err, p, o.Fail))
+		h, r := d.handleAction(a, err, p, o.Fail)
+		d.ops = append(d.ops, fmt.Sprintf("OAddChild %d %s %d", n, util.B(o.Sig), d.effFail))
+		d.afterCall(h, r)
 		d.stats["op-add"]++
 	case "enable":
 		n := d.specByIndex(o.A)
 		a, err, p := d.v.ChildEnable(atomOf(n))
-		d.ops = append(d.ops, fmt.Sprintf("OEnableChild %d %d", n, o.Fail))
 		d.log(fmt.Sprintf("CEnable %d", n), a, err, p)
-		d.afterCall(d.handleAction(a, err, p, o.Fail))
+		h, r := d.handleAction(a, err, p, o.Fail)
+		d.ops = append(d.ops, fmt.Sprintf("OEnableChild %d %d", n, d.effFail))
+		d.afterCall(h, r)
 		d.stats["op-enable"]++
 	case "disable":
 		n := d.specByIndex(o.A)
@@ -470,9 +514,14 @@ func supType(kind string) act.SupervisorType {
 	return act.SupervisorTypeSimpleOneForOne
 }
 
-func execMachineCase(c *mCase, stats map[string]int) string {
+func execMachineCase(c *mCase, stats map[string]int) (string, []string) {
 	d := &drv{c: c, v: act.VerifNewSup(supType(c.Kind)), children: map[int64]int{}, sig: map[int64]int{},
 		next: 1001, alive: true, stats: stats, nspecs: len(c.Sig)}
+	for _, t := range c.Tags {
+		if t == "stale-exit" {
+			d.allowStale = true
+		}
+	}
 	spec := act.SupervisorSpec{Type: supType(c.Kind), DisableAutoShutdown: c.NoAuto}
 	spec.Restart = act.SupervisorRestart{Strategy: act.SupervisorStrategy(c.Strategy), Intensity: uint16(c.Intensity),
 		Period: uint16(c.Period), KeepOrder: c.Keep}
@@ -484,6 +533,7 @@ func execMachineCase(c *mCase, stats map[string]int) string {
 	a, err, p := d.v.Init(spec)
 	d.log("CInit", a, err, p)
 	h, r := d.handleAction(a, err, p, c.InitFail)
+	initFail := d.effFail
 	switch h {
 	case 1:
 		d.die(r)
@@ -509,8 +559,8 @@ func execMachineCase(c *mCase, stats map[string]int) string {
 	kinds := map[string]string{"ofo": "OFO", "afo": "AFO", "rfo": "RFO", "sofo": "SOFO"}
 	strat := []string{"Transient", "Temporary", "Permanent"}[c.Strategy]
 	cfg := fmt.Sprintf("(mk_config %s %s %s %s %d %d)", kinds[c.Kind], strat, util.B(c.Keep), util.B(!c.NoAuto), c.Intensity, c.Period)
-	return fmt.Sprintf("mk_mcase %s %s %d %s %s %s %s", cfg, util.List(ch), c.InitFail, util.List(d.ops),
-		util.List(d.trace), util.List(d.events), util.List(d.snaps))
+	return fmt.Sprintf("mk_mcase %s %s %d %s %s %s %s", cfg, util.List(ch), initFail, util.List(d.ops),
+		util.List(d.trace), util.List(d.events), util.List(d.snaps)), d.fails
 }
 
 // ---- generators ---------------------------------------------------------------------------------
@@ -688,7 +738,25 @@ func scriptedCases() []*mCase {
 	}
 }
 
-func runMachine(n int, out string, replay string) {
+// witnesses of known findings; run only when known_findings.json lists the tag (bin/checks/supmachine.py)
+func witnessCases(tags string) []*mCase {
+	var out []*mCase
+	for _, t := range strings.Split(tags, ",") {
+		switch t {
+		case "stale-exit":
+			// DisableChild, then EnableChild before the exit of the old instance has been taken from the
+			// mailbox: the old exit is matched by name and wipes the pid of the new instance
+			for _, kind := range []string{"ofo", "afo"} {
+				out = append(out, &mCase{Kind: kind, Strategy: 0, Intensity: 3, Period: 5, Sig: []bool{false, false}, Stream: "witness",
+					Tags: []string{"stale-exit"},
+					Ops: []mOp{{K: "disable", A: 0}, {K: "enable", A: 0}, {K: "exitsig", A: 0}}})
+			}
+		}
+	}
+	return out
+}
+
+func runMachine(n int, out string, replay string, witness string) {
 	o := util.NewOut("sup.machine")
 	var cases []*mCase
 	if replay != "" {
@@ -705,6 +773,9 @@ func runMachine(n int, out string, replay string) {
 		cases = append(cases, &rp.Case)
 	} else {
 		cases = append(cases, scriptedCases()...)
+		if witness != "" {
+			cases = append(cases, witnessCases(witness)...)
+		}
 		r := util.Rng(2)
 		nex := n / 3
 		depth := 3
@@ -717,8 +788,11 @@ func runMachine(n int, out string, replay string) {
 		}
 	}
 	for _, c := range cases {
-		term := execMachineCase(c, o.Stats)
-		o.Add(term, c)
+		term, fails := execMachineCase(c, o.Stats)
+		idx := o.Add(term, c)
+		for _, f := range fails {
+			o.Monitor = append(o.Monitor, util.MonitorFail{Case: idx, What: f})
+		}
 		o.Stats["stream:"+c.Stream]++
 		o.Stats["kind:"+c.Kind]++
 		o.Stats[fmt.Sprintf("strategy:%d", c.Strategy)]++
